@@ -31,6 +31,13 @@ pointer or handle to one, or a closure producing one. Fails on a tree where
 `ZstCache::alloc_zst::<T>()` is a safe function (defect D3). -/
 theorem no_conjure : Generated.sigTable.ok = true := by decide
 
+/-- Lower bounds on the extracted table (a translator that silently drops rows cannot make
+`no_conjure` vacuous): at least 25 signatures returning a handle, 15 of them safe. -/
+theorem required_sig_rows :
+    Generated.sigTable.sigs.length ≥ 25 ∧
+    (Generated.sigTable.sigs.filter (fun s => !s.isUnsafe)).length ≥ 15 ∧
+    Generated.sigTable.unclassified = [] := by decide
+
 /-- The pinned tree's `pub fn alloc_zst<T: 'gc>(&self) -> Option<Gc<'gc, T>>` is rejected by the
 check; making it `unsafe fn` (the repair) is accepted. -/
 theorem pinned_conjure_witness :
